@@ -48,6 +48,22 @@ def det_scenarios(ctx, quick):
             decls.append({"k": "end"})
             decls.append({"k": "end"})
         scn.append({"id": len(scn) + 1, "decls": decls, "seed": ctx.seed, "mixins": True, "reps": 12})
+    # names that differ in case only (applications, types, fields, endpoints): an order that ignores case has ties
+    for names in (["Ledger", "ledger"], ["ledger", "Ledger", "LEDGER"]):
+        decls = []
+        for a in names:
+            decls.append(dict(D0, k="app", name=a, long=""))
+            for t in ("Entry", "entry"):
+                decls.append(dict(D0, k="type", name=t, kind="tuple"))
+                for f in ("ID", "id", "Id"):
+                    decls.append(dict(D0, k="field", name=f, sh=intsh, pk=False))
+                decls.append({"k": "end"})
+            for e in ("Post", "post"):
+                decls.append(dict(D0, k="ep", name=e, long="", params=[]))
+                decls.append(dict(D0, k="stmt", kind="action", text="do it"))
+                decls.append({"k": "end"})
+            decls.append({"k": "end"})
+        scn.append({"id": len(scn) + 1, "decls": decls, "seed": ctx.seed, "reps": 12})
     # relational models (spec/DbGen.tla): chains of foreign keys to foreign keys decide the order in which the database
     # script generators place the tables; the delta script between the last two versions is a generator too
     hist = core.generate(ctx, "DbGen", "GenDb3.cfg", num=20 if quick else 300, depth=14, seed=ctx.seed * 100 + 22, timeout=2400)
